@@ -106,10 +106,10 @@ package fastcgi
 //@ func fastcgiParse
 //@   modifies Dispenser.cursor, Dispenser.nesting, Rule.Ext, Rule.IndexFiles, Rule.SplitPath, ghost:blockEntriesRead, ghost:presetApplied
 //@   requires c != nil && presetApplied == 0 && blockEntriesRead == 0
-//@   at call (*Dispenser).Next do presetApplied = 0
-//@   at call (*Dispenser).Next do blockEntriesRead = 0
+//@   at call (*github.com/tmpim/casket/casketfile.Dispenser).Next do presetApplied = 0
+//@   at call (*github.com/tmpim/casket/casketfile.Dispenser).Next do blockEntriesRead = 0
 //@   at call fastcgiPreset before [preset_supplies_defaults_before_the_block_is_read] blockEntriesRead == 0
-//@   at call (*Dispenser).NextBlock do blockEntriesRead = blockEntriesRead + 1
+//@   at call (*github.com/tmpim/casket/casketfile.Dispenser).NextBlock do blockEntriesRead = blockEntriesRead + 1
 //@   loop 2 invariant c != nil && len(upstreams) >= 1 && (srvUpstream ==> strings.HasPrefix(upstreams[0], "srv://"))
 
 //@ unit setup_sweep props=C11 files=setup.go nilchecks=on nonnil_params=on dispenser_variants=on exclude=`fastcgi\.(fastcgiParse|parseSRV)$` filter=`.`
